@@ -66,9 +66,20 @@ func HarnessC07Component() {
 	vfsWriteFile("templates/components/pair.tw", "{{ a }}/{{ t }}")
 	vfsWriteFile("templates/components/card.v2.tw", "<v2>{{ t }}</v2>")
 	clash := false
+	vfsWriteFile("templates/components/usr.tw", "<u>{{ u.n }}{{ u.m.k }}</u>")
+	vfsWriteFile("templates/components/plain.tw", "<plain>")
 	vfsWriteFile("templates/components/cnt.tw", "{{ n = n + 1 }}<{{ n }}>")
 	vfsWriteFile("templates/components/set.tw", "{{ t = x }}[{{ t }}]")
-	switch vChoice("page", 11) {
+	switch vChoice("page", 15) {
+	case 11: // an argument value that is itself an object literal (the use ends in adjacent closing braces)
+		page = "A@component(\"~usr\", {u: {n: x, m: {k: y}}})B"
+		want = "A<u>" + x + y + "</u>B"
+	case 12: // a component file that declares no slot at all is passed a named slot / the default slot / one slot twice
+		page, fail = "@component(\"~plain\")@slot(\"a\")x@end@end", true
+	case 13:
+		page, fail = "@component(\"~plain\")@slot x@end@end", true
+	case 14:
+		page, want = "@component(\"~plain\")|@component(\"~plain\")@end", "<plain>|<plain>"
 	case 8: // uses without arguments are independent of each other: what the component file assigns stays inside the use
 		page = "@component(\"~cnt\")@component(\"~cnt\")@component(\"~cnt\")"
 		data["n"] = 0
